@@ -37,6 +37,27 @@ pub struct ConnReq {
     /// additional release boundaries (fractions of the request's record list): the peer sends
     /// the records in this many separate bursts (all immediately available)
     pub bursts: Vec<u16>,
+    /// the client aborts this request (C11)
+    #[serde(default)]
+    pub abort: Option<AbortSpec>,
+}
+
+#[derive(Clone, Debug, Serialize, Deserialize)]
+pub struct AbortSpec {
+    /// the AbortRequest record replaces everything after this many of the request's own records
+    /// (fraction; at least the BeginRequest record is sent)
+    pub after: u16,
+    pub body_len: u16,
+    pub pad: u8,
+}
+
+#[derive(Clone, Copy, Debug, PartialEq, Eq)]
+pub enum Kind {
+    Normal,
+    /// aborted before the Params stream ended: no handler invocation
+    ParamsAbort,
+    /// aborted after the preamble
+    StreamAbort,
 }
 
 #[derive(Clone, Debug, Serialize, Deserialize)]
@@ -73,6 +94,7 @@ pub struct Built {
     pub need: usize,
     /// record indices of management queries (non-empty GetValues for id 0, unknown types)
     pub queries: Vec<usize>,
+    pub kinds: Vec<Kind>,
 }
 
 fn is_query(r: &Rec) -> bool {
@@ -89,16 +111,38 @@ pub fn build(c: &ConnCase) -> Built {
     let mut spans = Vec::new();
     let mut need = 0usize;
     let mut burst_cuts: Vec<Vec<usize>> = Vec::new();
+    let mut kinds: Vec<Kind> = Vec::new();
     for q in &c.reqs {
         let own = q.pre.id;
         let start = recs.len();
         let (p, _) = q.pre.build();
         let last_gap = p.len() - 1;
         let noise: Vec<(u16, Noise)> = q.pre_noise.iter().filter(|(_, n)| conn_noise_ok(n)).cloned().collect();
-        recs.extend(traffic::splice_noise_bounded(p, &noise, own, last_gap, |g| if g == 0 { Phase::Idle } else { Phase::Params }).into_iter().filter(|r| keep(r, own)));
-        let pre_end = recs.len();
+        let mut pre_recs: Vec<Rec> = traffic::splice_noise_bounded(p, &noise, own, last_gap, |g| if g == 0 { Phase::Idle } else { Phase::Params }).into_iter().filter(|r| keep(r, own)).collect();
         let body = BodySpec { streams: q.body.streams.clone(), noise: q.body.noise.iter().filter(|(_, n)| conn_noise_ok(n)).cloned().collect() };
-        recs.extend(body.build(own).into_iter().filter(|r| keep(r, own)));
+        let mut body_recs: Vec<Rec> = body.build(own).into_iter().filter(|r| keep(r, own)).collect();
+        let mut kind = Kind::Normal;
+        if let Some(a) = &q.abort {
+            // position among the request's records, after the BeginRequest record
+            let begin_at = pre_recs.iter().position(|r| r.ty == wire::T_BEGIN && r.id == own).expect("begin record");
+            let total = pre_recs.len() + body_recs.len();
+            let k = begin_at + 1 + idx(a.after, total - begin_at);
+            let abort_rec = Rec::new(wire::T_ABORT, own, gen::gen_bytes(a.body_len as usize, 9), a.pad);
+            if k < pre_recs.len() {
+                pre_recs.truncate(k);
+                pre_recs.push(abort_rec);
+                body_recs.clear();
+                kind = Kind::ParamsAbort;
+            } else {
+                body_recs.truncate(k - pre_recs.len());
+                body_recs.push(abort_rec);
+                kind = Kind::StreamAbort;
+            }
+        }
+        kinds.push(kind);
+        recs.extend(pre_recs);
+        let pre_end = recs.len();
+        recs.extend(body_recs);
         let body_end = recs.len();
         for n in q.after.iter().filter(|n| conn_noise_ok(n)) {
             if let Some(r) = n.build(own, Phase::Streams) {
@@ -176,7 +220,7 @@ pub fn build(c: &ConnCase) -> Built {
     if recs.len() > tail_start {
         releases.push((offs[recs.len()], cond));
     }
-    Built { recs, spans, offs, client, releases, need: need + 13, queries }
+    Built { recs, spans, offs, client, releases, need: need + 13, queries, kinds }
 }
 
 // ---------------------------------------------------------------------------------------------
@@ -199,7 +243,7 @@ pub fn run_conn(c: &ConnCase, b: &Built, fault: IoFault, mut on_step: impl FnMut
     let world = Arc::new(Mutex::new(World::new(b.client.clone(), b.releases.clone(), c.read_script.clone(), c.write_script.clone(), c.vectored, fault)));
     let step = Arc::new(AtomicUsize::new(0));
     let sh = Arc::new(HShared {
-        scripts: c.reqs.iter().map(|r| r.handler.clone()).collect(),
+        scripts: c.reqs.iter().zip(&b.kinds).filter(|(_, k)| **k != Kind::ParamsAbort).map(|(r, _)| r.handler.clone()).collect(),
         propagate: c.propagate,
         log: Mutex::new(Vec::new()),
         step: step.clone(),
@@ -277,13 +321,22 @@ pub fn conn_model(c: &ConnCase, b: &Built) -> Result<ConnModel, Fail> {
     for (qi, q) in c.reqs.iter().enumerate() {
         let (start, pre_end, body_end, after_end) = b.spans[qi];
         let pm = model::preamble_model(&b.recs[start..pre_end], c.max_conns as usize);
-        let PreResult::Done { req, recs_used } = pm.result else {
-            vfail!("harness-inconsistent", "request {qi}: preamble model {:?}", pm.result);
-        };
-        vensure!(recs_used == pre_end - start, "harness-inconsistent", "request {qi}: model preamble ends early");
-        let sm = model::stream_model(q.pre.id, q.pre.role, &b.recs[pre_end..after_end], c.max_conns as usize);
         let _ = body_end;
-        reqs.push(ReqExpect { id: q.pre.id, model: req, streams: sm, keep_conn: q.pre.flags & 1 == 1 });
+        match (b.kinds[qi], pm.result) {
+            (Kind::ParamsAbort, PreResult::Incomplete) => {
+                vensure!(pm.aborted == vec![q.pre.id], "harness-inconsistent", "request {qi}: expected one Params-phase abort, model saw {:?}", pm.aborted);
+                let empty = model::stream_model(q.pre.id, q.pre.role, &[], 1);
+                reqs.push(ReqExpect { id: q.pre.id, model: ReqModel { id: q.pre.id, role: q.pre.role, flags: q.pre.flags, env: Default::default() }, streams: empty, keep_conn: true });
+            },
+            (Kind::ParamsAbort, other) => vfail!("harness-inconsistent", "request {qi}: Params-phase abort but preamble model {other:?}"),
+            (_, PreResult::Done { req, recs_used }) => {
+                vensure!(recs_used == pre_end - start, "harness-inconsistent", "request {qi}: model preamble ends early");
+                let sm = model::stream_model(q.pre.id, q.pre.role, &b.recs[pre_end..after_end], c.max_conns as usize);
+                vensure!(sm.abort_at.is_some() == (b.kinds[qi] == Kind::StreamAbort), "harness-inconsistent", "request {qi}: abort position disagrees with the stream model");
+                reqs.push(ReqExpect { id: q.pre.id, model: req, streams: sm, keep_conn: q.pre.flags & 1 == 1 });
+            },
+            (_, other) => vfail!("harness-inconsistent", "request {qi}: preamble model {other:?}"),
+        }
     }
     // E1 over the whole connection: every record's phase-independent reply
     let mut e1 = Vec::new();
@@ -390,16 +443,51 @@ pub struct Verdict {
     pub short_writes: usize,
 }
 
-pub fn expected_served(c: &ConnCase) -> usize {
-    let mut n = 0;
-    for q in &c.reqs {
-        n += 1;
+/// Walks the connection: which requests reach the server (`reached`), which invoke the handler,
+/// and what each must leave on the log. Uses the handler's *observed* return value (an aborted
+/// request may legitimately end with the handler's own status or with the propagated error).
+pub struct Walk {
+    /// number of requests (of any kind) the server must have dealt with
+    pub reached: usize,
+    /// expected handler invocations
+    pub invoked: usize,
+    /// per reached request: expected EndRequest (protocol, app) or None if the connection is
+    /// dropped without one
+    pub ends: Vec<Option<(u8, u32)>>,
+}
+
+pub fn walk(c: &ConnCase, b: &Built, invocations: &[Invocation]) -> Result<Walk, Fail> {
+    let mut w = Walk { reached: 0, invoked: 0, ends: Vec::new() };
+    for (qi, q) in c.reqs.iter().enumerate() {
+        w.reached += 1;
+        if b.kinds[qi] == Kind::ParamsAbort {
+            w.ends.push(Some((wire::ST_COMPLETE, 0)));
+            continue; // the connection stays usable whatever the flags said
+        }
+        let j = w.invoked;
+        w.invoked += 1;
+        let Some(inv) = invocations.get(j) else {
+            w.ends.push(None);
+            break;
+        };
         let keep = q.pre.flags & 1 == 1;
-        if !keep || script_returns(&q.handler).is_err() {
+        match &inv.returned {
+            Some(Ok(st)) => w.ends.push(Some(st.on_wire())),
+            Some(Err(k)) if *k == std::io::ErrorKind::ConnectionAborted => {
+                vensure!(b.kinds[qi] == Kind::StreamAbort, "conn-unexpected-io-error", "request #{qi}: handler saw ConnectionAborted although the client did not abort");
+                w.ends.push(Some((wire::ST_COMPLETE, wire::ABRT)));
+            },
+            Some(Err(_)) => {
+                w.ends.push(None);
+                break;
+            },
+            None => vfail!("conn-handler-unfinished", "request #{qi}: the handler future was dropped before it returned"),
+        }
+        if !keep {
             break;
         }
     }
-    n
+    Ok(w)
 }
 
 pub fn check_clean_run(c: &ConnCase, b: &Built, m: &ConnModel, r: &RunResult) -> Result<Verdict, Fail> {
@@ -416,39 +504,47 @@ pub fn check_clean_run(c: &ConnCase, b: &Built, m: &ConnModel, r: &RunResult) ->
         },
         RunEnd::StepLimit => vfail!("conn-spin", "connection task still running after {} polls", r.steps),
     }
-    let served = expected_served(c);
-    vensure!(r.invocations.len() == served, "conn-invocations", "handler invoked {} times, expected {served} (requests on the connection: {})", r.invocations.len(), c.reqs.len());
+    let wk = walk(c, b, &r.invocations)?;
+    vensure!(r.invocations.len() == wk.invoked, "conn-invocations", "handler invoked {} times, expected {} (requests on the connection: {}, kinds {:?})", r.invocations.len(), wk.invoked, c.reqs.len(), b.kinds);
     let ids: Vec<u16> = c.reqs.iter().map(|q| q.pre.id).collect();
     let view = view_log(&w.log)?;
     vensure!(view.complete_len == view.total_len, "conn-partial-record", "byte log ends with an incomplete record ({} of {} bytes decoded)", view.complete_len, view.total_len);
-    let g = check_grammar(&view, &ids, &|_| false)?;
-    // per served request
-    for i in 0..served {
+    // the two stream-end records are optional for aborted requests (only the single EndRequest is stated)
+    let g = check_grammar(&view, &ids, &|i| b.kinds.get(i).is_some_and(|k| *k != Kind::Normal))?;
+    let mut j = 0usize; // invocation index
+    let mut ended = 0usize;
+    for i in 0..wk.reached {
         let q = &c.reqs[i];
-        let inv = &r.invocations[i];
         let me = &m.reqs[i];
+        match wk.ends[i] {
+            Some(want) => {
+                vensure!(g.ended > ended, "conn-missing-endrequest", "request #{i} (id {}, {:?}): no EndRequest on the log ({} found so far)", q.pre.id, b.kinds[i], g.ended);
+                vensure!(g.end_status[ended] == want, "conn-endrequest-status", "request #{i} ({:?}): EndRequest carries (protocol {}, app {:#x}), expected ({}, {:#x})", b.kinds[i], g.end_status[ended].0, g.end_status[ended].1, want.0, want.1);
+                ended += 1;
+            },
+            None => {},
+        }
+        if b.kinds[i] == Kind::ParamsAbort {
+            vensure!(g.data[i].2 == 0, "conn-output-for-aborted", "request #{i} was aborted during Params but has output records");
+            continue;
+        }
+        let Some(inv) = r.invocations.get(j) else { break };
+        j += 1;
         vensure!(inv.role == me.model.role && inv.flags == me.model.flags, "conn-request-fields", "request #{i}: handler saw role {} flags {:#x}, sent role {} flags {:#x}", inv.role, inv.flags, me.model.role, me.model.flags);
         vensure!(inv.env == me.model.env, "conn-request-env", "request #{i}: handler saw {} variables, model {} (missing or different: {:?})", inv.env.len(), me.model.env.len(), me.model.env.iter().find(|(k, v)| inv.env.get(*k) != Some(v)).map(|(k, _)| k));
         for (s, got) in &inv.reads {
             let Some(want) = me.streams.content.get(s) else { vfail!("conn-read-foreign-stream", "request #{i}: handler read {} bytes while stream {s} was active, which the role does not have", got.len()) };
             vensure!(got.len() <= want.len() && want[..got.len()] == got[..], "conn-read-content", "request #{i}: bytes read from stream {s} are not a prefix of what the client sent ({} read, {} sent, first difference {:?})", got.len(), want.len(), got.iter().zip(want.iter()).position(|(a, b)| a != b));
             if inv.eof_seen.get(s) == Some(&true) {
-                vensure!(got.len() == want.len(), "conn-read-early-eof", "request #{i}: end-of-file on stream {s} after {} of {} bytes", got.len(), want.len());
+                vensure!(got.len() == want.len() && me.streams.end_rec.contains_key(s), "conn-read-early-eof", "request #{i}: end-of-file on stream {s} after {} of {} bytes (stream ended by the client: {})", got.len(), want.len(), me.streams.end_rec.contains_key(s));
             }
         }
         vensure!(!inv.data_after_eof, "conn-eof-not-persistent", "request #{i}: data returned after end-of-file");
-        vensure!(inv.read_errors.is_empty() && inv.write_errors.is_empty(), "conn-unexpected-io-error", "request #{i}: handler saw I/O errors on a fault-free transport: reads {:?} writes {:?}", inv.read_errors, inv.write_errors);
-        let ret = script_returns(&q.handler);
-        match ret {
-            Err(_) => {
-                vensure!(g.ended == i, "conn-endrequest-after-error", "request #{i}: handler returned an I/O error but {} EndRequest records are on the log", g.ended);
-            },
-            Ok(st) => {
-                vensure!(g.ended > i, "conn-missing-endrequest", "request #{i}: no EndRequest on the log ({} found)", g.ended);
-                let want = st.on_wire();
-                vensure!(g.end_status[i] == want, "conn-endrequest-status", "request #{i}: EndRequest carries (protocol {}, app {:#x}), handler returned {st:?} = ({}, {:#x})", g.end_status[i].0, g.end_status[i].1, want.0, want.1);
-            },
+        let aborted = b.kinds[i] == Kind::StreamAbort;
+        for (st, k) in &inv.read_errors {
+            vensure!(aborted && *k == std::io::ErrorKind::ConnectionAborted, "conn-unexpected-io-error", "request #{i}: input operation failed with {k:?} (active stream {st:?}) on a fault-free transport; request aborted by the client: {aborted}");
         }
+        vensure!(inv.write_errors.is_empty(), "conn-unexpected-io-error", "request #{i}: output operation failed on a fault-free transport: {:?}", inv.write_errors);
         // handler output: concatenation per stream equals the accepted writes
         let mut so = Vec::new();
         let mut se = Vec::new();
@@ -458,21 +554,20 @@ pub fn check_clean_run(c: &ConnCase, b: &Built, m: &ConnModel, r: &RunResult) ->
         vensure!(g.data[i].0 == so, "conn-stdout-content", "request #{i}: stdout records carry {} bytes, handler's successful writes total {}", g.data[i].0.len(), so.len());
         vensure!(g.data[i].1 == se, "conn-stderr-content", "request #{i}: stderr records carry {} bytes, handler's successful writes total {}", g.data[i].1.len(), se.len());
     }
-    let ended_expected = (0..served).filter(|&i| script_returns(&c.reqs[i].handler).is_ok()).count();
-    vensure!(g.ended == ended_expected, "conn-endrequest-count", "{} EndRequest records for real requests, expected {ended_expected}", g.ended);
+    vensure!(g.ended == ended, "conn-endrequest-count", "{} EndRequest records for real requests, expected {ended}", g.ended);
     // management replies: in arrival order, nothing else, and at least everything owed for
-    // records up to the last served preamble (records behind it may still sit unprocessed in the
-    // buffer when the connection ends; C08 decides when that is acceptable)
-    let all_kept = served == c.reqs.len() && (0..served).all(|i| c.reqs[i].pre.flags & 1 == 1 && script_returns(&c.reqs[i].handler).is_ok());
-    if all_kept {
+    // records up to the last preamble the server dealt with (records behind it may still sit
+    // unprocessed in the buffer when the connection ends; C08 decides when that is acceptable)
+    let all_served = wk.reached == c.reqs.len() && wk.ends.last().is_some_and(|e| e.is_some()) && (c.reqs[wk.reached - 1].pre.flags & 1 == 1 || b.kinds[wk.reached - 1] == Kind::ParamsAbort);
+    if all_served {
         vensure!(w.eof_delivered, "conn-early-exit", "connection task ended before the peer closed a reusable connection");
     }
     let covered = model::match_replies_prefix(&m.e1, &g.mgmt).map_err(|e| Fail::new("conn-mgmt-replies", e))?;
-    let last_pre_end = b.spans[served - 1].1;
+    let last_pre_end = b.spans[wk.reached - 1].1;
     let must = m.e1.iter().take_while(|e| e.cause < last_pre_end).count();
     let must_mand = model::mandatory(&m.e1[..must]);
     vensure!(covered >= must || model::mandatory(&m.e1[..covered]) >= must_mand, "conn-mgmt-replies-missing", "only {covered} of the {must} replies owed for records up to the last served preamble were written");
-    Ok(Verdict { served, short_reads: w.short_reads, short_writes: w.short_writes })
+    Ok(Verdict { served: wk.invoked, short_reads: w.short_reads, short_writes: w.short_writes })
 }
 
 // ---------------------------------------------------------------------------------------------
@@ -584,7 +679,7 @@ pub fn conn_req(keep_weight: f64, allow_err: bool, wait_mgmt: BoxedStrategy<bool
                 pre.flags &= 1; // mostly standard flag bytes
             }
             body.noise = body_noise;
-            ConnReq { pre, pre_noise, body, after, handler, wait_mgmt, bursts }
+            ConnReq { pre, pre_noise, body, after, handler, wait_mgmt, bursts, abort: None }
         })
         .boxed()
 }
